@@ -225,11 +225,78 @@ void history(Ctx &c) {
 	c.tag("history");
 }
 
+// ---- character types wider than a byte ------------------------------------------------------
+// The byte strings are widened so that code units which agree modulo 256 but differ above it occur in both operands
+// (position parity decides the high part): an implementation that narrows a code unit to a byte confuses them.
+template<typename Char>
+std::basic_string<Char> widen(const std::string &s, unsigned salt) {
+	std::basic_string<Char> w;
+	for(size_t i = 0; i < s.size(); i++) w.push_back((Char)(((unsigned char)s[i] & 0x7f) + (((i + salt) & 1) ? 0x100u : 0u) + ((sizeof(Char) > 2 && ((i + salt) & 2)) ? 0x10000u : 0u)));
+	return w;
+}
+template<typename Char>
+void wide_battery(Ctx &c, const std::string &A8, const std::string &B8, const char *tname) {
+	using WS = std::basic_string<Char>; using WV = std::basic_string_view<Char>;
+	using FV = frg::basic_string_view<Char>; using FS = frg::basic_string<Char, track_alloc>;
+	WS A = widen<Char>(A8, 0), B = widen<Char>(B8, 1);
+	auto exactw = [&](const WS &w, bool term = false) { size_t n = w.size() + (term ? 1 : 0); Char *p = (Char *)malloc(n * sizeof(Char)); c.arena.push_back({p, nullptr}); for(size_t i = 0; i < w.size(); i++) p[i] = w[i]; if(term) p[w.size()] = 0; return (const Char *)p; };
+	FV va(exactw(A), A.size()), vb(exactw(B), B.size());
+	WV ra(A), rb(B);
+	c.op("wide battery <%s> on the widened operands", tname);
+	VCHECK(c, "C15", (va == vb) == (A == B) && (vb == va) == (A == B), "<%s> view == gives %d, reference %d", tname, (int)(va == vb), (int)(A == B));
+	WS probe = A.substr(0, 2) + B.substr(0, 2); probe.push_back((Char)0); probe.push_back((Char)0x100); probe.push_back((Char)0x61); probe.push_back((Char)0x161);
+	for(Char ch : probe) {
+		for(size_t start = 0; start <= A.size() + 1; start++) { size_t got = va.find_first(ch, start), exp = ra.find(ch, start); VCHECK(c, "C15", got == exp, "<%s> find_first(%#x, %zu) is %zd, reference %zd", tname, (unsigned)ch, start, (ssize_t)got, (ssize_t)exp); }
+		size_t got = va.find_last(ch), exp = ra.rfind(ch);
+		VCHECK(c, "C15", got == exp, "<%s> find_last(%#x) is %zd, reference %zd", tname, (unsigned)ch, (ssize_t)got, (ssize_t)exp);
+	}
+	for(size_t start = 0; start <= A.size() + 1; start++) {
+		size_t got = va.find_first_of(vb, start), exp = ra.find_first_of(rb, start);
+		VCHECK(c, "C15", got == exp, "<%s> find_first_of(B, %zu) is %zd, reference %zd (code units that agree modulo 256 are different characters)", tname, start, (ssize_t)got, (ssize_t)exp);
+	}
+	for(size_t from = 0; from <= A.size(); from++) for(size_t len = 0; from + len <= A.size(); len += 1 + len / 4) {
+		FV sub = va.sub_string(from, len);
+		VCHECK(c, "C15", sub.data() == va.data() + from && sub.size() == len, "<%s> sub_string(%zu,%zu) yields another range", tname, from, len);
+		VCHECK(c, "C15", (sub == va) == (ra.substr(from, len) == ra), "<%s> sub_string(%zu,%zu) == whole", tname, from, len);
+	}
+	bool sw = B.size() <= A.size() && ra.substr(0, B.size()) == rb, ew = A.size() >= B.size() && ra.substr(A.size() - B.size()) == rb;
+	VCHECK(c, "C15", va.starts_with(vb) == sw && va.ends_with(vb) == ew, "<%s> starts_with/ends_with give %d/%d, reference %d/%d", tname, (int)va.starts_with(vb), (int)va.ends_with(vb), (int)sw, (int)ew);
+	// the same relations against a prefix/suffix of A itself (so that they are true for non-empty operands)
+	if(A.size() >= 2) { FV pre(exactw(A.substr(0, A.size() / 2)), A.size() / 2), suf(exactw(A.substr(A.size() / 2)), A.size() - A.size() / 2);
+		VCHECK(c, "C15", va.starts_with(pre) && va.ends_with(suf), "<%s> a view does not start with its own prefix / end with its own suffix", tname); }
+	auto owned = [&](FS &s, const WS &ref, const char *what) {
+		VCHECK(c, "C15", s.size() == ref.size(), "<%s> %s: size() is %zu, reference %zu", tname, what, s.size(), ref.size());
+		if(s.data()) { for(size_t i = 0; i < ref.size(); i++) VCHECK(c, "C15", s[i] == ref[i], "<%s> %s: character %zu is %#x, reference %#x", tname, what, i, (unsigned)s[i], (unsigned)ref[i]);
+			VCHECK(c, "C15", s.data()[s.size()] == 0, "<%s> %s: data()[size()] is not the terminator", tname, what); }
+		else VCHECK(c, "C15", ref.empty(), "<%s> %s: data() is null for %zu characters", tname, what, ref.size());
+	};
+	FS *sa = c.make<FS>(exactw(A), A.size(), track_alloc{}); FS *sb = c.make<FS>(vb, track_alloc{});
+	owned(*sa, A, "string(ptr,len)"); owned(*sb, B, "string(view)");
+	if(A.find((Char)0) == WS::npos) { FS *sc = c.make<FS>(exactw(A, true), track_alloc{}); owned(*sc, A, "string(cstr)"); c.destroy(sc); }
+	int ab = sa->compare(*sb), ba = sb->compare(*sa);
+	VCHECK(c, "C15", (ab == 0) == (A == B) && sgn(ab) == -sgn(ba) && (*sa == *sb) == (A == B), "<%s> compare is %d / %d, reference equality %d", tname, ab, ba, (int)(A == B));
+	if(A.size() == B.size() && A != B) { size_t i = 0; while(A[i] == B[i]) i++; VCHECK(c, "C15", sgn(ab) == (A[i] < B[i] ? -1 : 1), "<%s> compare sign is %d at first difference %#x / %#x", tname, ab, (unsigned)A[i], (unsigned)B[i]); }
+	{ FS *cat = c.make<FS>(*sa + vb); owned(*cat, A + B, "a + view"); c.destroy(cat); }
+	for(Char ch : {(Char)0x61, (Char)0, (Char)0x100, (Char)0x161}) { FS *cat = c.make<FS>(*sa + ch); owned(*cat, A + ch, "a + char"); c.destroy(cat); }
+	{ FS *cp = c.make<FS>(*sa); *cp += vb; owned(*cp, A + B, "a += view"); *cp += (Char)0x100; owned(*cp, A + B + (Char)0x100, "a += char"); cp->push_back((Char)0); owned(*cp, A + B + (Char)0x100 + (Char)0, "push_back(0)");
+		*cp += FV(*cp); WS d = A + B + (Char)0x100 + (Char)0; owned(*cp, d + d, "a += view of itself"); c.destroy(cp); }
+	for(size_t n : {size_t(0), A.size() / 2, A.size(), A.size() + 3}) { FS *cp = c.make<FS>(*sa); cp->resize(n); WS exp = A.substr(0, std::min(n, A.size()));
+		VCHECK(c, "C15", cp->size() == n && cp->data()[n] == 0, "<%s> resize(%zu): size %zu or terminator wrong", tname, n, cp->size());
+		for(size_t i = 0; i < exp.size(); i++) VCHECK(c, "C15", (*cp)[i] == exp[i], "<%s> resize(%zu) does not keep the prefix", tname, n);
+		c.destroy(cp); }
+	{ FS *cp = c.make<FS>(*sa); *cp = *sb; owned(*cp, B, "assignment"); swap(*cp, *sa); owned(*cp, A, "swap"); owned(*sa, B, "swap"); swap(*cp, *sa); c.destroy(cp); }
+	VCHECK(c, "C15", sa->starts_with(vb) == sw && sa->ends_with(vb) == ew, "<%s> string starts_with/ends_with", tname);
+	c.check_san("C15");
+	VTRACK_POLL(c);
+	c.destroy(sb); c.destroy(sa);
+}
+
 void battery(Ctx &c, const std::string &A, const std::string &B) {
 	c.op("battery A=%s B=%s", show(A).c_str(), show(B).c_str());
 	view_battery(c, A, B);
 	number_checks(c, A);
 	string_battery(c, A, B);
+	if(A.size() + B.size() <= 24) { wide_battery<char16_t>(c, A, B, "char16_t"); wide_battery<char32_t>(c, A, B, "char32_t"); c.tag("wide-battery"); }
 	VTRACK_END(c);
 	c.tag("battery");
 	// non-trivial: both operands non-empty and related: a search that finds at index > 0, a
